@@ -106,6 +106,8 @@ impl TlsClientConfig { pub fn connector(&self) -> TlsConnector { TlsConnector(0)
 /// into_inner / raw byte access exist so that an edit which unwraps or moves bytes itself is decided, not rejected.
 pub struct IOBufStream { pub wrap: u32 }
 pub struct Inner(pub u8);
+/// BufReader<BufWriter<S>>: two layers can be peeled off
+impl Inner { pub fn into_inner(self) -> Inner { self } pub fn get_mut(&mut self) -> &mut Self { self } }
 pub trait Raw {}
 impl Raw for TcpStream {}
 impl Raw for TlsStream {}
